@@ -64,8 +64,13 @@ def ellipse_enclosed(cx, cy, w, h, angle, bb, x, y):
     dx = x - cx
     dy = y - cy
     lemma('frame', dx == c * u - s * v and dy == s * u + c * v)
-    lemma('cauchy_schwarz_x', sq(c * u - s * v) + sq(a * c * v / b + b * s * u / a) == ex2 * q)
-    lemma('cauchy_schwarz_y', sq(s * u + c * v) + sq(a * s * v / b - b * c * u / a) == ey2 * q)
+    # the two identities hold for all reals with c^2 + s^2 = 1 and non-zero a, b: proved on their own, then instantiated
+    csx = lambda C, S, A, B_, U, V: implies(C * C + S * S == 1 and A > 0 and B_ > 0,
+                                            sq(C * U - S * V) + sq(A * C * V / B_ + B_ * S * U / A) == (sq(A * C) + sq(B_ * S)) * (sq(U / A) + sq(V / B_)))
+    csy = lambda C, S, A, B_, U, V: implies(C * C + S * S == 1 and A > 0 and B_ > 0,
+                                            sq(S * U + C * V) + sq(A * S * V / B_ - B_ * C * U / A) == (sq(A * S) + sq(B_ * C)) * (sq(U / A) + sq(V / B_)))
+    general('cauchy_schwarz_x', csx, c, s, a, b, u, v)
+    general('cauchy_schwarz_y', csy, c, s, a, b, u, v)
     # A + B^2 == C q, C >= 0, q <= 1  =>  A <= C       (proved once for all reals, then instantiated)
     mono = lambda A, Bq, C, Q: implies(A + Bq * Bq == C * Q and C >= 0 and Q <= 1, A <= C)
     general('mono', mono, sq(c * u - s * v), a * c * v / b + b * s * u / a, ex2, q)
